@@ -98,6 +98,13 @@ var c15Forms = []string{
 	"let $p = (let $a = a in $a), $q = (let $b = b in [$b, $b]) in [$p, $q]", "{x: let $a = a in [$a], y: let $b = b in {z: $b}, z: let $c = c in $c}", "let $a = a in {x: let $b = b in [$a, $b], y: let $c = c in [$a, $c], z: $a}",
 	"{p: let $a = a, $b = b in [$a, $b], q: let $a = c in $a, r: let $d = d in $d}", "rs[*].{x: let $i = id in $i, y: let $k = k in [$k], z: let $n = n in $n}", "[*].length(merge(`{}`, @))", "rs[*].merge(`{\"tag\":\"t\"}`, @).id", "merge(`{\"kind\":\"default\"}`, o1) | length(@)",
 	"{a: a, b: b, a: c}", "{b: a, a: b, b: c}.b", "let $x = a, $y = b, $x = c in [$x, $y]", "let $a = a, $b = b, $c = c, $d = d, $e = e in [$a, $b, $c, $d, $e]",
+	// wide lets (more bindings than a small inline table holds) and, around them, narrow lets that
+	// look up names they do not bind: anything left behind by the wide ones shows here
+	"let $a = a, $b = b, $c = c, $d = d, $e = e, $f = a, $g = b, $h = c in [$a, $b, $c, $d, $e, $f, $g, $h]",
+	"let $a = 'A', $b = 'B', $c = 'C', $d = 'D', $e = 'E', $f = 'F', $g = 'G', $h = 'H', $i = 'I', $j = 'J' in [$j, $a]",
+	"rs[*].[let $a = id, $b = k, $c = n, $d = id, $e = k, $f = n in [$a, $f]]",
+	"let $q = `0` in $a", "let $q = `0` in [$q, $h]", "let $z = a in {x: $z, y: $e}", "let $a = `7` in let $q = `0` in [$a, $q]", "let $q = `0`, $r = `1` in $j",
+	"let $a = `7`, $b = `7`, $c = `7`, $d = `7`, $e = `7`, $f = `7` in let $q = `0` in [$a, $b, $c, $d, $e, $f]", "[let $q = a in $q, let $r = b in $f]",
 	"merge(@, {a: `1`}, {a: `2`})", "merge({a: `1`, b: `1`}, {b: `2`, c: `2`}, {c: `3`, a: `3`})", "merge(a, b, c)", "merge(o1, o2, o1)", "merge(o2, o1)",
 	"group_by(rs, &k)", "group_by(rs, &k).*", "group_by(rs, &k) | keys(@) | sort(@)", "group_by(rs, &to_string(n))", "from_items(ps)", "from_items(items(o1))", "from_items(`[[\"a\",1],[\"b\",2],[\"a\",3]]`)", "from_items(zip(keys(o1), values(o1)))",
 	"sort(keys(o1))", "sort(values(o2))", "length(keys(@))", "sort_by(items(o1), &[0])", "sort_by(rs, &k)[*].id", "sort_by(rs, &n)[*].id", "max_by(rs, &n).id", "min_by(rs, &n).id", "rs[*].[id, k]", "rs[?k == 'x'].id",
